@@ -2,6 +2,7 @@
 import collections
 import itertools
 
+from vf import core
 from vf import e2e, gen, hooks, pipeline
 from vf.core import Shard, rng_for
 
@@ -189,7 +190,7 @@ def run_e2e(spec, sh):
         rng = rng_for('C12e2e', spec['seed'], spec['shard'], i)
         case = gen.pipeline_case(rng, ['noisy', 'partial', 'chimeric', 'indel'], param_prob=0.5, param_keys=('d', 'p'),
                                  nq=8)
-        judge_e2e(case, spec['workdir'], sh)
+        core.isolated(judge_e2e, sh, case, spec['workdir'])
     if hooks.MONITOR_ERRORS:
         sh.inconclusive.append('monitor errors: %s' % hooks.MONITOR_ERRORS[:3])
 
